@@ -63,6 +63,7 @@ DECIDING = {"server_must_accept_opened": 200, "server_must_reject_refused": 200,
             "timeouts_evaluated": 20, "oversized_dropped_at_timeout": 5, "matrix_pairs_opened": 50, "matrix_pairs_refused": 20,
             "matrix_messages_exchanged": 50, "grey_cases": 50, "segmentations": 15,
             "limit_attempts_judged": 2000, "limit_attempts_at_limit_after_rejection": 300, "limit_admitted_after_earlier_rejection": 100,
+            "key_multichar_corruptions_judged": 300, "key_corruption_classes": 60,
             "origin_lookalikes_nonlast_judged": 100, "origin_genuine_accepted": 100, "origin_lookalike_classes": 40, "origin_genuine_positions": 15}
 
 OPEN_TIMEOUT = 5
@@ -450,6 +451,60 @@ def _bad_keys(rng):
             k.replace("=", "") + "AA", "x" * 24, k[:22] + "=A"]
 
 
+KEY_JUNK = " -_.*~!\t@#$%&()[]{}:;'\"<>?\\^`|,"
+
+
+def key_corpus(rng):
+    """(class name, value) pairs that are NOT the base64 encoding of 16 octets (RFC 6455 4.2.1 item 5: exactly 22 characters of the
+    base64 alphabet followed by '=='), although many keep the right length and the '==' tail.  Decided by H.key_class (strict)."""
+    out = []
+    k = lambda: rand_key(rng)     # noqa: E731
+    for n in (2, 2, 3, 3, 4, 4, 6, 6, 5, 8):
+        v = list(k())
+        for p_ in rng.sample(range(22), n):
+            v[p_] = rng.choice(KEY_JUNK)
+        out.append(("nonalpha-%d" % n, "".join(v)))
+    for n in (2, 3, 4, 6):          # the same junk character repeated, at evenly spread positions
+        v = list(k())
+        ch = rng.choice("-_.*~! ")
+        for j in range(n):
+            v[(j * 22) // n + rng.randrange(2)] = ch
+        out.append(("nonalpha-spread-%d" % n, "".join(v)))
+    for p_ in range(22):            # a stray '=' at EVERY interior position
+        v = k()
+        out.append(("interior-eq-%d" % p_, v[:p_] + "=" + v[p_ + 1:]))
+    for p_, q in ((3, 7), (7, 11), (3, 19), (0, 21), (11, 15)):
+        v = list(k())
+        v[p_] = v[q] = "="
+        out.append(("interior-eq-two", "".join(v)))
+    for t in (3, 4, 6, 8, 12, 23, 24):
+        out.append(("eq-tail-%d" % t, k()[:24 - t] + "=" * t))
+    v = k()
+    out.append(("urlsafe", v[:4] + "-" + v[5:9] + "_" + v[10:15] + "-_" + v[17:]))
+    out.append(("urlsafe-all", "".join(rng.choice("-_") if i % 3 == 0 else c for i, c in enumerate(k()[:22])) + "=="))
+    for ws in (" ", "\t", "  "):
+        v = k()
+        p_ = rng.randrange(1, 21)
+        out.append(("whitespace-inside-replacing", v[:p_] + ws + v[p_ + len(ws):]))
+        out.append(("whitespace-inside-inserted", v[:p_] + ws + v[p_:]))
+    v = k()
+    out.append(("whitespace-every-4", " ".join(v[i:i + 4] for i in range(0, 24, 4))))
+    a = lambda n: "".join(rng.choice("ABCDEFGHIJKLMNOPQRSTUVWXYZabcdefghijklmnopqrstuvwxyz0123456789+/") for _ in range(n))     # noqa: E731
+    out += [("alpha-22-pad-1", a(22) + "="), ("alpha-23-pad-1", a(23) + "="), ("alpha-23-pad-2", a(23) + "=="), ("alpha-21-pad-3", a(21) + "==="),
+            ("alpha-22-pad-0", a(22)), ("alpha-22-pad-then-alpha", a(22) + "=" + a(1)), ("alpha-24-pad-0", a(24)), ("alpha-20-pad-4", a(20) + "===="),
+            ("alpha-24-pad-2", a(24) + "=="), ("alpha-26-pad-2", a(26) + "=="), ("alpha-18-pad-2", a(18) + "=="), ("alpha-1-pad-2", a(1) + "=="),
+            ("decodes-17", base64.b64encode(bytes(rng.getrandbits(8) for _ in range(17))).decode()),
+            ("decodes-18", base64.b64encode(bytes(rng.getrandbits(8) for _ in range(18))).decode()),
+            ("decodes-15", base64.b64encode(bytes(rng.getrandbits(8) for _ in range(15))).decode()),
+            ("decodes-14", base64.b64encode(bytes(rng.getrandbits(8) for _ in range(14))).decode()),
+            ("decodes-32", base64.b64encode(bytes(rng.getrandbits(8) for _ in range(32))).decode()),
+            ("leading-eq-2", "==" + a(22)), ("leading-eq-1", "=" + a(21) + "=="), ("only-eq", "=" * 24), ("only-junk", "-" * 22 + "=="),
+            ("quoted", '"' + k()[:20] + '"=='), ("quoted-whole", '"' + k() + '"'), ("hex-16", bytes(rng.getrandbits(8) for _ in range(16)).hex()[:22] + "=="),
+            ("hex-32", bytes(rng.getrandbits(8) for _ in range(16)).hex()), ("percent", a(10) + "%3D" + a(9) + "=="), ("comma", a(11) + "," + a(10) + "=="),
+            ("semicolon-param", a(15) + ";q=1" + a(3) + "==")]
+    return out
+
+
 def server_reject_mutations(cfg):
     """name -> callable(rng, spec, ver, cfg) mutating the spec in place (may also edit cfg); returns False when not applicable."""
     def method(rng, sp, ver, cfg):
@@ -491,6 +546,11 @@ def server_reject_mutations(cfg):
 
     def key_invalid(rng, sp, ver, cfg):
         hset(sp, "Sec-WebSocket-Key", rng.choice(_bad_keys(rng)))
+
+    def key_multi(rng, sp, ver, cfg):
+        name, val = rng.choice(key_corpus(rng))
+        hset(sp, "Sec-WebSocket-Key", val)
+        sp["_sub"] = re.sub(r"-[0-9]+$", "", name)
 
     def version_missing(rng, sp, ver, cfg):
         hdel(sp, "Sec-WebSocket-Version")
@@ -571,7 +631,7 @@ def server_reject_mutations(cfg):
     return {"method": method, "http-version": http_version, "host-missing": host_missing, "host-duplicate": host_duplicate,
             "host-duplicate-far": host_duplicate_far, "upgrade-missing": upgrade_missing, "upgrade-wrong": upgrade_wrong,
             "connection-missing": connection_missing, "connection-wrong": connection_wrong, "key-missing": key_missing,
-            "key-duplicate": key_duplicate, "key-invalid": key_invalid, "version-missing": version_missing,
+            "key-duplicate": key_duplicate, "key-invalid": key_invalid, "key-multi": key_multi, "version-missing": version_missing,
             "version-unsupported": version_unsupported, "version-other-configured": version_other_configured,
             "version-garbage": version_garbage, "protocol-duplicate": protocol_duplicate, "origin-lookalike": origin_lookalike,
             "origin-null": origin_null, "max-connections": max_connections, "smuggle-nel": smuggle_nel}
@@ -1411,6 +1471,9 @@ def run_server_case(case, R, fw):
             return probs
 
         fired = judge("server", case, s, w, R, fw, data, verdict, ocfg, cfg["oht"], w.world.now(), post)
+        if fired and case["tag"].startswith("reject/key-multi") and "key-invalid" in verdict.reasons and not _all_escaped(w):
+            R.count("key_multichar_corruptions_judged")
+            R.seen("key_corruption_classes", case["tag"].split("/", 2)[2])
         om = cfg.get("ometa")
         if om and fired and not _all_escaped(w):
             where = "last" if om["pos"] == om["n"] - 1 else "nonlast"
@@ -1773,6 +1836,14 @@ def systematic_cases(rng):
                 sp["h"].append(["Origin" if ver >= 13 else "Sec-WebSocket-Origin", got[0], " ", ""])
                 tag = "accept/origin-policy/genuine" if kind == "genuine" else "reject/origin-lookalike/%s" % kind
                 out.append(finish_case(rng, {"kind": "server", "tag": tag, "cfg": cfg}, build_msg(sp)))
+    # the whole corpus of keys that are not base64(16 octets): multi-character corruptions, interior '=', padding/length variants
+    for _rep in range(2):
+        for name, val in key_corpus(rng):
+            cfg = gen_server_cfg(rng)
+            cfg.update(maxc=0, prior=0, closed=0)
+            sp, _ = accept_request_spec(rng, cfg)
+            hset(sp, "Sec-WebSocket-Key", val)
+            out.append(finish_case(rng, {"kind": "server", "tag": "reject/key-multi/" + name, "cfg": cfg}, build_msg(sp)))
     # connection limit boundaries
     for maxc in (1, 2, 3, 5):
         for closed in (0, 1, 2):
@@ -2034,7 +2105,7 @@ def run_shard(params, R):
     tier, part, parts, seed = params["tier"], params["part"], params["parts"], params["seed"]
     for k in DECIDING:
         if k not in ("server_reject_classes", "client_reject_classes", "server_reject_mutations", "client_reject_mutations", "segmentations",
-                     "origin_lookalike_classes", "origin_genuine_positions"):
+                     "origin_lookalike_classes", "origin_genuine_positions", "key_corruption_classes"):
             R.count(k, 0)
     rng = random.Random((seed * 1000003 + part * 7919 + (17 if fw == "aio" else 0) + (31 if nvx else 0)) & 0xFFFFFFFF)
     # ---- systematic families: generated from the seed alone (same list in every shard), dealt round-robin
